@@ -34,7 +34,8 @@
    `only_view` along whole operations (which cells a call may store where);
    see docs/C03.md. *)
 From Coq Require Import List ZArith Bool Arith.
-From SC Require Import Base.Res Base.PyList Inst.Heap Inst.ClassTable Inst.Model Inst.TypeProofs Inst.TypeCopy.
+From SC Require Import Base.Res Base.PyList Inst.Heap Inst.ClassTable Inst.Model Inst.TypeProofs Inst.TypeCopy
+  Inst.OwnProofs Inst.OwnProofs2.
 Import ListNotations.
 Open Scope nat_scope.
 
@@ -280,6 +281,113 @@ Proof.
   - intro H. apply ti_b_iff in H. vm_compute in H. discriminate.
 Qed.
 
+(* ---------------- 6. ownership (coq/Inst/OwnProofs.v, OwnProofs2.v) ----------------
+   `Owned ct h`: the heap has no dangling reference, instance dicts have unique
+   keys, and every container cell held by a managed List/Set/Dict attribute has
+   reference count 1 in the whole heap: it is referenced from exactly that
+   slot (no second slot, managed or not; no element position).  This is the
+   provenance invariant the full statement needs: it discharges `only_view`. *)
+Theorem C03_owned_computable : forall ct h, owned_b ct h = true <-> Owned ct h.
+Proof. exact owned_b_iff. Qed.
+
+(* a state that satisfies it ... *)
+Example C03_owned_example : owned_b exCT exH = true /\ Owned exCT exH /\ ti_b exCT exH = true.
+Proof. split; [vm_compute; reflexivity|]. split; [apply owned_b_iff; vm_compute; reflexivity|vm_compute; reflexivity]. Qed.
+
+(* ... and the aliased state of C03_alias_counterexample (one list held by two
+   attributes, reached through two accepted assignments) violates it although
+   it satisfies the type invariant *)
+Example C03_alias_not_owned :
+  let s2 := exRun [OpSetAttr 0 50 (VRef 1); OpSetAttr 0 60 (VRef 1)]
+                  (mkst [OInst 1 [(1, VInt 3%Z)]; OList []] 0 None) in
+  ti_b exCT (heap s2) = true /\ ~ Owned exCT (heap s2).
+Proof.
+  cbv zeta. split; [vm_compute; reflexivity|]. intro H. apply owned_b_iff in H. vm_compute in H. discriminate.
+Qed.
+
+(* under Owned the slot that holds a collection cell is the only view of it:
+   the side condition of C03_*_insert_preserves_TypeInv *)
+Theorem C03_owned_only_view :
+  forall ct h l cl d k a c sp,
+    Owned ct h -> nth_error h l = Some (OInst cl d) -> lookup_cls ct cl = Some k ->
+    In (a, VRef c) d -> lookup_attr k a = Some sp -> flat_coll (a_ty sp) = true ->
+    only_view ct h c (a_ty sp).
+Proof. exact Owned_only_view. Qed.
+
+(* the single writes of the library preserve TypeInv /\ Owned (`Inv`): *)
+Theorem C03_owned_store :             (* a value nobody references is stored in attribute a *)
+  forall ct, flat_table ct -> forall h l cl (d : list (nat * val)) a v,
+    Inv ct h -> nth_error h l = Some (OInst cl d) ->
+    (forall k sp, lookup_cls ct cl = Some k -> lookup_attr k a = Some sp ->
+                  check_type FUEL ct h v (a_ty sp) = true) ->
+    loose h v -> Inv ct (set_nth l (OInst cl (assoc_set a v d)) h).
+Proof. exact Inv_store. Qed.
+
+Theorem C03_owned_container_write :   (* a container write that adds no reference *)
+  forall ct, flat_table ct -> forall h c o0 o,
+    Inv ct h -> nth_error h c = Some o0 -> shape o = shape o0 -> shape o0 < 3 ->
+    (forall c', orefs c' o <= orefs c' o0) ->
+    (forall t, viewed ct h c t -> flat_coll t = true ->
+               check_type FUEL ct (set_nth c o h) (VRef c) t = true) ->
+    Inv ct (set_nth c o h).
+Proof. exact Inv_write_container. Qed.
+
+Theorem C03_owned_delete :
+  forall ct, flat_table ct -> forall h l cl (d : list (nat * val)) a,
+    Inv ct h -> nth_error h l = Some (OInst cl d) -> Inv ct (set_nth l (OInst cl (assoc_del a d)) h).
+Proof. exact Inv_delete. Qed.
+
+(* the recursive mutate_value calls made for leaf collection attributes are quiet:
+   they allocate at most one empty collection, for every fuel *)
+Theorem C03_mutate_value_quiet :
+  forall ct, flat_table ct -> forall fuel m F, astable F -> mv_plain m ->
+    T (IF ct F) (exec ct fuel (KMutateValue m)) (fun r h => IF ct F h /\ mv_res m r h) (IF ct F).
+Proof. exact exec_mv_quiet. Qed.
+
+(* whole operations on leaf list attributes (List[scalar], no preparers), tables without
+   invalidated_by, argument not referenced by anybody (args_fresh): conforming or not,
+   normalised through add_items or rejected, TypeInv /\ Owned is preserved *)
+Theorem C03_setattr_preserves_owned :
+  forall ct, flat_table ct -> no_inval_table ct -> forall roots x a v s,
+    Inv ct (heap s) -> loose (heap s) v ->
+    (forall l, nth x roots VNone = VRef l -> recv_leaf ct l a (heap s)) ->
+    Inv ct (heap (snd (step ct roots (OpSetAttr x a v) s))).
+Proof. exact step_setattr_Inv. Qed.
+
+Theorem C03_with_inplace_preserves_owned :
+  forall ct, flat_table ct -> no_inval_table ct -> forall roots x a hh s,
+    Inv ct (heap s) -> loose (heap s) (pos0 hh) -> h_inplace hh = true -> h_kw hh = None ->
+    (forall l, nth x roots VNone = VRef l -> recv_leaf ct l a (heap s)) ->
+    Inv ct (heap (snd (step ct roots (OpHelper x (HWith a) hh) s))).
+Proof. exact step_with_inplace_Inv. Qed.
+
+(* the combined statement, with the operations covered as a computable predicate
+   (owned_op_b: assignment, with_<a>(v, _inplace=True) on leaf list attributes with a
+   fresh argument; the caller building a container of scalars).  PARTIAL: the full
+   statement quantifies over every operation and every flat table. *)
+Theorem C03_step_preserves_owned_partial :
+  forall ct roots o s,
+    flat_table ct -> no_inval_b ct = true -> owned_op_b ct (heap s) roots o = true ->
+    TypeInv ct s -> Owned ct (heap s) ->
+    TypeInv ct (snd (step ct roots o s)) /\ Owned ct (heap (snd (step ct roots o s))).
+Proof. exact step_preserves_owned_partial. Qed.
+
+(* non-vacuity: the guards hold on a concrete state, for a conforming and for an
+   ill-typed fresh list (the latter is normalised element by element and rejected) *)
+Example C03_owned_guards_hold :
+  let h := exH ++ [OList [VInt 5%Z]; OList [VStr 5%Z]] in
+  no_inval_b exCT = true /\ owned_b exCT h = true /\ ti_b exCT h = true /\
+  owned_op_b exCT h [VRef 0] (OpSetAttr 0 50 (VRef 2)) = true /\
+  owned_op_b exCT h [VRef 0] (OpSetAttr 0 50 (VRef 3)) = true /\
+  owned_op_b exCT h [VRef 0] (OpHelper 0 (HWith 50) (exArgs [VRef 2] true)) = true /\
+  (let r := step exCT [VRef 0] (OpSetAttr 0 50 (VRef 2)) (mkst h 0 None) in
+   fst r = Ok VNone /\ owned_b exCT (heap (snd r)) = true /\ ti_b exCT (heap (snd r)) = true) /\
+  (let r := step exCT [VRef 0] (OpSetAttr 0 50 (VRef 3)) (mkst h 0 None) in
+   fst r = Err ValueErr /\ owned_b exCT (heap (snd r)) = true /\ ti_b exCT (heap (snd r)) = true) /\
+  (* the aliasing assignment of the counterexample is NOT covered: the argument is referenced *)
+  owned_op_b exCT [OInst 1 [(1, VInt 3%Z); (50, VRef 1)]; OList []] [VRef 0] (OpSetAttr 0 60 (VRef 1)) = false.
+Proof. vm_compute. repeat split. Qed.
+
 Print Assumptions C03_checked_before_stored.
 Print Assumptions C03_bad_value_rejected.
 Print Assumptions C03_bad_element_rejected.
@@ -306,3 +414,15 @@ Print Assumptions C03_ill_typed_element_rejected.
 Print Assumptions C03_ill_typed_value_rejected.
 Print Assumptions C03_alias_counterexample.
 Print Assumptions C03_full_statement_needs_args_fresh.
+Print Assumptions C03_owned_computable.
+Print Assumptions C03_owned_example.
+Print Assumptions C03_alias_not_owned.
+Print Assumptions C03_owned_only_view.
+Print Assumptions C03_owned_store.
+Print Assumptions C03_owned_container_write.
+Print Assumptions C03_owned_delete.
+Print Assumptions C03_mutate_value_quiet.
+Print Assumptions C03_setattr_preserves_owned.
+Print Assumptions C03_with_inplace_preserves_owned.
+Print Assumptions C03_step_preserves_owned_partial.
+Print Assumptions C03_owned_guards_hold.
